@@ -206,6 +206,8 @@ pub struct Iso<S: AnyScan> {
     cap: u64,
     /// channels rendered into the key
     in_play: [u8; 2],
+    /// optional third channel rendered into the key
+    third: Option<u8>,
 }
 
 impl<S: AnyScan> Iso<S> {
@@ -218,6 +220,7 @@ impl<S: AnyScan> Iso<S> {
             timeout,
             cap: if timeout == u64::MAX { 3 * TICK } else { timeout },
             in_play,
+            third: None,
         }
     }
 
@@ -316,6 +319,9 @@ impl<S: AnyScan> Sys for Iso<S> {
         key_of(&self.shared, self.now, self.cap, buf, scratch);
         key_of(&self.solo[self.in_play[0] as usize], self.now, self.cap, buf, scratch);
         key_of(&self.solo[self.in_play[1] as usize], self.now, self.cap, buf, scratch);
+        if let Some(c) = self.third {
+            key_of(&self.solo[c as usize], self.now, self.cap, buf, scratch);
+        }
     }
     fn step(&mut self, sym: &Ev, rep: &mut Report, path: &dyn Fn() -> Vec<String>) {
         self.apply(sym, rep, path);
@@ -384,6 +390,32 @@ fn c15_for<S: AnyScan>(cfg: &Cfg, rep: &mut Report, timeouts: &[u64]) {
             tot_trans += st.transitions;
             all_fix &= st.fixpoint;
             rep.count(&format!("c15_{}_dictionary_pair_runs", S::NAME), 1);
+        }
+    }
+    if !cfg.as_c18 && S::HAS_POLL {
+        // three channels pending at distinct times (orderings by channel index vs by arrival):
+        // minimal per-channel alphabet (select, one data entry MSB, poll) + tick
+        for (a, b, c) in [(1u8, 5u8, 9u8), (12, 7, 2), (0, 15, 8)] {
+            let t = 2 * TICK;
+            let mut alpha: Vec<Ev> = Vec::new();
+            for &ch3 in &[a, b, c] {
+                alpha.push(Ev::cc(ch3, 6, 1));
+                alpha.push(Ev::Poll(ch3));
+            }
+            alpha.push(Ev::Tick(TICK));
+            let mut init = Iso::<S>::new(t, [a, b]);
+            init.third = Some(c);
+            // numbers are selected up front so that the explorer spends its states on timing
+            for &ch3 in &[a, b, c] {
+                init.apply(&Ev::cc(ch3, 99, 1), rep, &|| vec!["(selection prefix)".into()]);
+                init.apply(&Ev::cc(ch3, 98, 1), rep, &|| vec!["(selection prefix)".into()]);
+            }
+            let (st, _) = explore(cfg, init, &alpha, 100_000, rep, false);
+            tot_states += st.states;
+            tot_trans += st.transitions;
+            all_fix &= st.fixpoint;
+            rep.count("c15_polling_three_channel_runs", 1);
+            rep.max("max_three_channel_states", st.states);
         }
     }
     rep.states += tot_states;
@@ -510,9 +542,9 @@ impl<S: AnyScan> Sys for Transp<S> {
     }
     fn step(&mut self, sym: &Ev, _rep: &mut Report, _path: &dyn Fn() -> Vec<String>) {
         match sym {
-            Ev::Tick(n) => self.now += n,
+            Ev::Tick(n) => self.now = self.now.saturating_add(*n),
             Ev::TickPoll(n, c) => {
-                self.now += n;
+                self.now = self.now.saturating_add(*n);
                 set_clock(self.now);
                 self.s.poll_c(*c);
             }
@@ -573,7 +605,7 @@ impl<S: AnyScan> Sys for Transp<S> {
                     }
                     if let Ev::Msg(a, b, c) = e {
                         for off in &offsets {
-                            set_clock(self.now + off);
+                            set_clock(self.now.saturating_add(*off));
                             let mut copy = self.s;
                             let o = copy.feed_m(&raw(*a, *b, *c));
                             n += 1;
@@ -704,11 +736,11 @@ fn c16_for<S: AnyScan>(cfg: &Cfg, rep: &mut Report, timeouts: &[u64]) {
                 hist.push(e);
                 let (o1, o2) = match e {
                     Ev::Tick(n) => {
-                        now += n;
+                        now = now.saturating_add(n);
                         (Some(S::empty()), Some(S::empty()))
                     }
                     Ev::TickPoll(n, c) => {
-                        now += n;
+                        now = now.saturating_add(n);
                         set_clock(now);
                         (plain.poll_c(c), noisy.poll_c(c))
                     }
@@ -851,11 +883,11 @@ struct ResetSys<S: AnyScan> {
 fn apply_plain<S: AnyScan>(s: &mut S, now: &mut u64, e: &Ev) -> Option<S::Out> {
     match e {
         Ev::Tick(n) => {
-            *now += n;
+            *now = now.saturating_add(*n);
             Some(S::empty())
         }
         Ev::TickPoll(n, c) => {
-            *now += n;
+            *now = now.saturating_add(*n);
             set_clock(*now);
             s.poll_c(*c)
         }
